@@ -18,6 +18,16 @@ func (reader) Read(b []byte) (int, error) {
 		return vrt.PlainRandRead(b)
 	}
 	fill(b)
+	if len(b) == 1 {
+		// a single random byte is a length or an index: a harness may pin it (Options.RandInt)
+		if s := vrt.Cur(); s != nil {
+			if f := s.Opt().RandInt; f != nil && vrt.Active() {
+				if v := f(256, "rand.Read1"); v >= 0 {
+					b[0] = byte(v)
+				}
+			}
+		}
+	}
 	return len(b), nil
 }
 
